@@ -32,7 +32,7 @@ ASSUMPTIONS = ['python == / hash on the generated elements (None, ints, quarter 
                'kwargs_support(f)(**params) passes exactly the declared arguments by name and raises TypeError when one is missing; generated functions are lambda args: c + 1*a1 + 2*a2 + ... and never declare an argument named key',
                'attribute access (getattr/setattr/delattr = item access, AttributeError for KeyError) and in-place writes are modelled on a heap of handles (DAHeap); a name that is a public attribute of the class (DAHeap.shadowed, compared with dir(cls) by a law) yields the bound method, a private name (leading underscore) is written to the instance dict which is not modelled (known finding K1); object identity beyond handles (aliasing of values) is not modelled',
                'Dict + other is tree_update (C15): modelled by DA.addC / PygModel.DictAdd on the C15 model Tree.itemsToTree; with dict values on both sides it is the recursive merge, not {**d, **o}',
-               'tuple paths (d - (a, b)) and absent dotted keys in d[k] / d[k1, k2] / d[[..]] are modelled on Val-valued mappings (PygModel/DADotted.lean) and generated for the stateless operators; in the handle histories (generic heap model) keys hold no dot; the path walk is generated through dict values and into every kind of leaf (numbers, None, strings incl. a part that is a substring of the leaf, tuples, lists: a path into a leaf is absent - no-op since fix 3432f5e); key selections given as a set / dict / dict view raise TypeError (unhashable) and are not generated: the selections of the statement are a key, a list of keys or a tuple path; relabelling onto an existing key / of two keys to one name (a value is lost: the statement has no reading) is generated for correspondence (d.relabel-collision; model theorem relabel_lookup: the last colliding item wins); self-referential callables are outside the acyclic statement and generated for correspondence only (call-selfloop)']
+               'tuple paths (d - (a, b)) and absent dotted keys in d[k] / d[k1, k2] / d[[..]] are modelled on Val-valued mappings (PygModel/DADotted.lean) and generated for the stateless operators; in the handle histories (generic heap model) keys hold no dot; the path walk is generated through dict values and into every kind of leaf (numbers, None, strings incl. a part that is a substring of the leaf, tuples, lists: a path into a leaf is absent - no-op since fix bd26767); key selections given as a set / dict / dict view raise TypeError (unhashable) and are not generated: the selections of the statement are a key, a list of keys or a tuple path; relabelling onto an existing key / of two keys to one name (a value is lost: the statement has no reading) is generated for correspondence (d.relabel-collision; model theorem relabel_lookup: the last colliding item wins); self-referential callables are outside the acyclic statement and generated for correspondence only (call-selfloop)']
 
 ELEMS = [None, 0, 1, 2, 3, 4, 5, 1.0, 2.0, 2.5, 'a', 'b', 'c', '', (1, 2), (1, 'a'), (2.0, 1), ()]
 KEYS = ['a', 'b', 'c', 'd', 'e', 'x', 'y']
